@@ -126,15 +126,20 @@ Spec == Init /\ [][Next]_vars
 
 ---------------------------------------------------------------------------
 \* exact linear-algebra facts of a square tree (determinant, inverse, definiteness) for C06/C07/C08/C11
-LinalgOut ==
-    LET d == Denote(t)
-        dn == DetN(d)
+LinalgFacts(d) ==
+    LET dn == DetN(d)
         \* the inverse is only formed when |det|^2 and det * adjugate fit comfortably in 32 bits
         nz == dn # CZ /\ Abs(dn[1]) <= 2000 /\ Abs(dn[2]) <= 2000 /\ d.d <= 8
     IN [t |-> t, wf |-> TRUE, dense |-> d, dt |-> DTypeOf(t), lvl |-> lvl,
         true_anns |-> TrueAnns(d), infer |-> IF CtorOnly(t) THEN Infer(t) ELSE {},
         det |-> Det(d), singular |-> (dn = CZ), nonsing |-> nz, pd |-> IsPD(d),
         inv |-> IF nz THEN MInverse(d) ELSE Zero(1, 1)]
+
+LinalgOut ==
+    LET d == Denote(t)
+    IN IF d.r >= 5 /\ ~(d.d = 1 /\ RowNormBound(d, 1073741824) < 1073741824)
+       THEN [t |-> t, wf |-> TRUE, dense |-> d, dt |-> DTypeOf(t), lvl |-> lvl, nodet |-> TRUE]   \* minors may not fit 32 bits
+       ELSE LinalgFacts(d)
 
 \* exact spectral decomposition (verified against Denote by SpecInv) for C09 / C10
 SpectralOut ==
@@ -148,7 +153,7 @@ SpectralOut ==
 
 Out == IF WellFormed(t)
        THEN IF "spectral" \in Acts /\ HasSpec(t) THEN SpectralOut
-            ELSE IF "linalg" \in Acts /\ ShapeOf(t)[1] = ShapeOf(t)[2] /\ ShapeOf(t)[1] <= 4 THEN LinalgOut
+            ELSE IF "linalg" \in Acts /\ ShapeOf(t)[1] = ShapeOf(t)[2] /\ ShapeOf(t)[1] <= 8 THEN LinalgOut
             ELSE IF "anns" \in Acts
             THEN LET d == Denote(t) IN
                  [t |-> t, wf |-> TRUE, dense |-> d, dt |-> DTypeOf(t), lvl |-> lvl,
